@@ -9,9 +9,9 @@ void harness(void)
     xv_ghost_havoc();
     xv_tpcore_havoc();
     struct xcm_socket *s;
-    long q0 = xv_seq, l0 = xv_ctl_live, d0 = xv_ctld_calls;
+    long q0 = xv_seq;
     xcm_tp_socket_cleanup(s);
     if (xv_seq == q0) XV_CANARY("NULL: nothing");
-    if (xv_ctld_calls == d0 + 1 && xv_ctl_live == l0 - 1 && xv_ctld_seq < xv_op_seq && xv_op_kind == XV_OP_CLEANUP) XV_CANARY("control interface destroyed, then transport cleanup");
-    if (xv_ctld_calls == d0 + 1 && xv_ctl_live == l0 && xv_op_kind == XV_OP_CLEANUP) XV_CANARY("no control interface: transport cleanup");
+    if (xv_seq != q0 && xv_g_ctl) XV_CANARY("socket with control interface");
+    if (xv_seq != q0 && !xv_g_ctl) XV_CANARY("socket without control interface");
 }
